@@ -235,7 +235,7 @@ struct TrustSim {
 			if (!fam_ok) K.fail("C04", "fail-with-undocumented-code", "policy-" + std::to_string(policy), "FAIL under policy %d with error code 0x%x outside the documented family", policy, ec);
 			// an unavailable / failing extender or publications file is inconclusive, never a contradiction
 			bool planted_contradiction = !genuine || upk == 3 || s.kind == S_AUTH_EXPIRED || s.kind == S_AUTH_FUTURE || s.kind == S_AUTH_EDGE_STARTING || s.kind == S_AUTH_BADSIG || fk == F_OTHER_HASHES ||
-				(ext_any && !bw.fault_fired && (e.behav == B_OTHER_INPUT || e.behav == B_ALTERED_RIGHT_LINK || e.behav == B_WRONG_AGG_TIME || e.behav == B_WRONG_PUB_TIME || e.behav == B_BAD_SHAPE || e.behav == B_EXTRA_LINKS));
+				(ext_any && !bw.fault_fired && (e.behav == B_OTHER_INPUT || e.behav == B_ALTERED_RIGHT_LINK || e.behav == B_WRONG_AGG_TIME || e.behav == B_WRONG_PUB_TIME || e.behav == B_BAD_SHAPE || e.behav == B_EXTRA_LINKS || e.behav == B_NO_AGG_TIME));
 			if (!planted_contradiction && fam != 2 && fam != 1) K.fail("C04", "fail-without-contradicting-anchor", "policy-" + std::to_string(policy) + "/0x" + std::to_string(ec), "FAIL (0x%x) under policy %d although no anchor contradicts the signature (extender behaviour %s, fault %d, file kind %d)", ec, policy, behav_name(e.behav), e.fault, fk);
 		}
 		// clean contradictions must be FAIL
